@@ -152,6 +152,27 @@ FaultExp(op, a) ==
          THEN ExpRej(DocAll)
          ELSE ExpOkOrRej(DocAll)
 
+(***************************************************************************)
+(* Observed packing: a library object projected to the specification's     *)
+(* decoded shape just before its pack() ran (trace validation of the       *)
+(* repository's own tests, vp/repotrace.py).  Objects the specification    *)
+(* cannot encode (oversize parts) are not judged here - the grids do that. *)
+(***************************************************************************)
+ObsOps == {"obs.pack"}
+ObsExp(op, a) ==
+  LET v == a.v IN
+  CASE a.cls = "sph" -> [octets |-> SpHdrEnc(v)]
+    [] a.cls = "tc" -> IF TcFits(v) THEN [octets |-> TcEnc(v)] ELSE ExpAny
+    [] a.cls = "tm" -> IF TmFits(v) THEN [octets |-> TmEnc(v)] ELSE ExpAny
+    [] a.cls = "reqid" -> [octets |-> ReqIdEnc(v)]
+    [] a.cls = "cds" -> IF v.days \in 0..65535 /\ Len(v.ms) = 4 THEN [octets |-> <<64>> \o U16(v.days) \o v.ms] ELSE ExpAny
+    [] a.cls = "cfdphdr" -> IF CfdpHdrBuildable(v) THEN [octets |-> CfdpHdrEnc(v)] ELSE ExpAny
+    [] a.cls = "lv" -> IF Len(v.v) <= 255 THEN [octets |-> LvEnc(v.v)] ELSE ExpAny
+    [] a.cls = "tlv" -> IF Len(v.v) <= 255 THEN [octets |-> TlvEnc(v.t, v.v)] ELSE ExpAny
+    [] a.cls = "pdu" -> IF PduOk(v.kind, v.cfg, v.p) THEN [octets |-> PduEnc(v.kind, v.cfg, v.p)] ELSE ExpAny
+    [] a.cls = "uslphdr" -> IF UslpIdsOk(v) THEN [octets |-> UslpHdrEnc(v)] ELSE ExpRej(<<"value">>)
+    [] OTHER -> ExpAny
+
 FaultLaw(op, a) ==
   CASE op = "fault.decode" ->
          FaultOk(a) => LET w == FaultEnc(a) IN
